@@ -7,7 +7,7 @@ from sa.cfg import CFG
 from sa.common import expand_name, returns_of
 from sa.defuse import DefUse, loc_name
 from sa.model import AnalysisError, AnchorMissing, const_value, src, walk_function
-from sa.struct import call_name, find, norm
+from sa.struct import call_name, find, kwarg, norm
 
 EXPLANATION = (
     "Decides structural necessary conditions of C08: (D1) in geometry_from_meta every per-site attribute is stored "
@@ -126,9 +126,10 @@ def d1_joint_permutation(ctx):
                   "while the other attributes are sorted", key="store-after-perm")
         # index provenance: lexsort result
         defs = du.strong_reaching(idx, a)
-        ctx.check(len(defs) == 1 and isinstance(defs[0].value, ast.Call) and call_name(defs[0].value) == "lexsort", fi, a,
-                  f"{idx} = {src(defs[0].value) if defs else '?'}", "the permutation index is the lexsort result",
-                  "the permutation index is not (only) the lexsort result", key="perm-index")
+        okidx = len(defs) == 1 and defs[0].value is not None and isinstance(defs[0].value, ast.Call) and call_name(defs[0].value) in ("lexsort", "unique", "argsort")
+        ctx.check(okidx, fi, a,
+                  f"{idx} = {src(defs[0].value) if defs and defs[0].value is not None else '?'}", "the permutation index is the result of the sort (its key order is decided by D2)",
+                  "the permutation index is not (only) the result of the sort call", key="perm-index")
     # restrictions
     for q, arg in (("spikeglx._split_geometry_into_shanks", None), ("neuropixel.split_trace_header", None)):
         f2 = repo.fn(q)
@@ -148,37 +149,63 @@ def d1_joint_permutation(ctx):
                       key="restrict")
 
 
-def _sort_keys(repo, fi, du):
-    ls = [c for c in find(fi.node, ast.Call) if call_name(c) == "lexsort"]
-    if not ls:
-        raise AnchorMissing("geometry_from_meta: lexsort call not found")
-    c = ls[0]
-    arg = expand_name(du, c.args[0], c)
+def _key_list(du, arg, at):
+    """Key expressions of a sort-key argument, in the order given, and whether the keys are the ROWS of the argument
+    (tuple / list / np.c_[...].T: what lexsort wants) or its COLUMNS (np.c_[...]: what a row-wise unique wants)."""
+    arg = expand_name(du, arg, at)
     transposed = False
     if isinstance(arg, ast.Attribute) and arg.attr == "T":
         transposed = True
-        arg = expand_name(du, arg.value, c)
-    keys = None
-    if isinstance(arg, ast.Subscript) and isinstance(arg.value, ast.Attribute) and arg.value.attr == "c_" and transposed:
+        arg = expand_name(du, arg.value, at)
+    if isinstance(arg, ast.Subscript) and isinstance(arg.value, ast.Attribute) and arg.value.attr == "c_":
         keys = list(arg.slice.elts) if isinstance(arg.slice, ast.Tuple) else [arg.slice]
-    elif isinstance(arg, (ast.Tuple, ast.List)) and not transposed:
-        keys = list(arg.elts)
-    elif isinstance(arg, ast.Call) and call_name(arg) in ("array", "vstack", "stack") and arg.args and isinstance(arg.args[0], (ast.Tuple, ast.List)) \
-            and not transposed:
-        keys = list(arg.args[0].elts)
-    elif isinstance(arg, ast.Subscript) and isinstance(arg.value, ast.Attribute) and arg.value.attr == "r_" and not transposed:
-        keys = None
-    return c, keys
+        return keys, ("rows" if transposed else "columns")
+    if isinstance(arg, (ast.Tuple, ast.List)):
+        return list(arg.elts), ("columns" if transposed else "rows")
+    if isinstance(arg, ast.Call) and call_name(arg) in ("array", "vstack", "stack") and arg.args and isinstance(arg.args[0], (ast.Tuple, ast.List)):
+        return list(arg.args[0].elts), ("columns" if transposed else "rows")
+    if isinstance(arg, ast.Call) and call_name(arg) in ("column_stack",) and arg.args and isinstance(arg.args[0], (ast.Tuple, ast.List)):
+        return list(arg.args[0].elts), ("rows" if transposed else "columns")
+    return None, None
+
+
+def _sort_keys(repo, fi, du):
+    """(call, keys from least to most significant, problem).  Understands np.lexsort and the row-wise np.unique idioms."""
+    calls = find(fi.node, ast.Call)
+    ls = [c for c in calls if call_name(c) == "lexsort"]
+    if ls:
+        c = ls[0]
+        keys, layout = _key_list(du, c.args[0], c)
+        if keys is None:
+            return c, None, None
+        if layout == "columns":
+            return c, keys, "lexsort is given the keys as columns of an (n, k) array: it sorts k-long vectors, not the n sites"
+        return c, keys, None
+    un = [c for c in calls if call_name(c) == "unique" and kwarg(c, "axis") is not None]
+    if un:
+        c = un[0]
+        keys, layout = _key_list(du, c.args[0], c)
+        if keys is None or layout != "columns" or const_value(kwarg(c, "axis")) != (True, 0):
+            return c, None, None
+        inv = kwarg(c, "return_inverse")
+        idx = kwarg(c, "return_index")
+        if isinstance(inv, ast.Constant) and inv.value is True and not (isinstance(idx, ast.Constant) and idx.value is True):
+            return c, list(reversed(keys)), ("np.unique(..., return_inverse=True) yields each row's rank, i.e. the INVERSE of the sorting permutation; "
+                                             "indexing with it sorts only when the permutation is its own inverse (all dense layouts)")
+        return c, list(reversed(keys)), None  # rows compared lexicographically: first column most significant
+    raise AnchorMissing("geometry_from_meta: neither np.lexsort nor a row-wise np.unique sort found")
 
 
 def d2_sort_keys(ctx):
-    ctx.rule("D2", "lexsort keys are (-col, row, shank): order by shank, then row, then descending column")
+    ctx.rule("D2", "sort keys are (-col, row, shank) from least to most significant: order by shank, then row, then descending column")
     repo = ctx.repo
     fi = repo.fn("spikeglx.geometry_from_meta")
     du = DefUse(fi.node)
-    c, keys = _sort_keys(repo, fi, du)
+    c, keys, problem = _sort_keys(repo, fi, du)
     if keys is None:
-        raise AnalysisError(f"geometry_from_meta: lexsort argument form not understood: {src(c)}")
+        raise AnalysisError(f"geometry_from_meta: sort-key argument form not understood: {src(c)}")
+    if problem:
+        ctx.violation(fi, c, c, problem, key="sort-idiom")
     got = []
     for k in keys:
         sign = 1
@@ -190,9 +217,9 @@ def d2_sort_keys(ctx):
             name = k.slice.value
         got.append((name, sign))
     want = [("col", -1), ("row", 1), ("shank", 1)]
-    ctx.check(got == want, fi, c, f"lexsort keys (least to most significant): {got}",
+    ctx.check(got == want, fi, c, f"sort keys (least to most significant): {got}",
               "sort is by shank, then row, then descending column",
-              f"lexsort keys are {got} (least to most significant); expected {want}", key="lexsort-keys")
+              f"sort keys are {got} (least to most significant); expected {want}", key="lexsort-keys")
 
 
 def _run_fn(repo, q, env):
@@ -447,11 +474,11 @@ def d6_shank_key(ctx):
 
 
 def run(ctx):
-    d1_joint_permutation(ctx)
-    d2_sort_keys(ctx)
-    d3_grid_inverse(ctx)
-    d4_version_tables(ctx)
-    d5_adc(ctx)
-    d6_shank_key(ctx)
+    ctx.run(d1_joint_permutation)
+    ctx.run(d2_sort_keys)
+    ctx.run(d3_grid_inverse)
+    ctx.run(d4_version_tables)
+    ctx.run(d5_adc)
+    ctx.run(d6_shank_key)
     from rules import C01
-    C01.d2b_returned_index(ctx)
+    ctx.run(C01.d2b_returned_index)
